@@ -195,11 +195,40 @@ def r04c(ctx):
                     a == ('attr', owner, '_unique_leaf_modules') and \
                     b == ('attr', owner, '_leaf_modules'):
                 ok = True
+        why = ''
+        if not ok:
+            # which list is iterated instead?
+            doms = []
+            for p in paths(repo, fn):
+                for e in p.events:
+                    for c in e.ctx:
+                        if c[0] == 'loop' and c[2] is not None and c[2] not in doms and \
+                                mentions(c[2], lambda x: x[0] == 'attr' and x[1] == owner):
+                            doms.append(c[2])
+            spec_p = [('param', x) for x in fn.params if 'spec' in x or x == 'name']
+            keyed = [d for d in doms if d[0] == 'sub' and
+                     any(mentions(d[2], lambda x, q=q: x == q) for q in spec_p)]
+            if keyed:
+                # a per-specification table: judge what was stored into it
+                tab = keyed[0][1]
+                stored = [e.data[2] for g in repo.all_functions() if g.cls is fn.cls
+                          for p in paths(repo, g) for e in p.events
+                          if e.kind == 'setitem' and e.data[0] == tab]
+                ok = bool(stored) and all(
+                    v[0] == 'ifexp' and v[1][0] == 'attr' and v[1][2] == 'shared' and
+                    v[2] == ('attr', owner, '_unique_leaf_modules') and
+                    v[3] == ('attr', owner, '_leaf_modules') for v in stored)
+                why = f'per-specification table {short(tab, 40)}'
+            else:
+                why = ('the list comes from ' + (', '.join(short(d, 60) for d in doms[:2]) or
+                                                 'no conditional list') +
+                       ', which does not depend on the specification being evaluated (state '
+                       'resolved once is stale as soon as a dictionary mixes shared and '
+                       'per-invocation metrics)')
         ctx.ob('R04c', f'{name} iteration list', ok,
                'unique layers iff the metric is shared, else every invocation' if ok else
-               f'layers are iterated over {[short(t, 120) for t in found] or "no conditional list"}'
-               f': a shared metric must visit each layer once, a per-invocation metric every '
-               f'call site', where(fn))
+               f'{why}: a shared metric must visit each layer once, a per-invocation metric '
+               f'every call site', where(fn))
     ctx.floor('R04c', 'cost iteration sites', n, 4)
 
 
